@@ -348,12 +348,13 @@ def check_byte_queue(ctx, rule="C04.W1"):
     wbn = normal.normalised(ctx, wb)
     wrets = [x for x in rules.func_stmts(wbn) if isinstance(x, ast.Return)]
     ok = False
-    if len(wrets) == 1 and isinstance(wrets[0].value, ast.Subscript) and isinstance(wrets[0].value.value, ast.Call) and call_name(wrets[0].value.value) == "self.wait_for":
-        wc = wrets[0].value.value
+    wval = rules.expand_ast(wbn, wrets[0].value) if len(wrets) == 1 and wrets[0].value is not None else None
+    if wval is not None and isinstance(wval, ast.Subscript) and isinstance(wval.value, ast.Call) and call_name(wval.value) == "self.wait_for":
+        wc = wval.value
         kw = {k.arg: norm(k.value) for k in wc.keywords}
         size = norm(wc.args[0]) if wc.args else kw.get(ps, "1")
         flag = norm(wc.args[1]) if len(wc.args) > 1 else kw.get(pp)
-        ok = norm(wrets[0].value.slice) == "0" and size == "1" and flag == wb.node.args.args[1].arg
+        ok = norm(wval.slice) == "0" and size == "1" and flag == wb.node.args.args[1].arg
     ctx.ob(rule, wb.qualname, ok, "wait_for_byte is byte 0 of wait_for(1, peek)" if ok else f"wait_for_byte returns `{norm(wrets[0].value) if wrets else None}`, not the first byte of wait_for(1, peek)", key="first-byte", where=wb.where)
     rcv = repo.method("Protocol", "_on_connection_data_received", inherited=False)
     ctx.touch(rcv)
